@@ -67,6 +67,14 @@ def run(chk):
     if 'err' in rt or not rt['ok']['canon_equal'] or not rt['ok']['fresh']:
       chk.violation('oracle', 'merge(split(g)) is not isomorphic to g (types, statics, Variable values/metadata, or which paths reach the same object), or reuses objects of g',
                     {'case': c, 'observed': rt, 'expected_canon': r['canon']})
+    rt2 = r['roundtrip'].get('ok', {})
+    if rt2.get('second_merge_equal') is False or rt2.get('states_untouched') is False:
+      chk.violation('oracle', 'merging the same states a second time, after the metadata and values of the first merged copy were changed in place, does not rebuild g (or the states / g changed)',
+                    {'case': c, 'observed': {k: rt2.get(k) for k in ('second_merge_equal', 'states_untouched')}})
+    hk = r.get('hooks', {})
+    if 'err' in hk or hk['ok'] != {'raw': [[5, 7]] * 4, 'set_once': 8, 'get': 9, 'shared': True}:
+      chk.violation('oracle', 'update / split / merge on Variables with on_set_value / on_get_value hooks do not move the raw values unchanged (update(g, state(g)) must be the identity; hooks '
+                    'run on user access only)', {'observed': hk, 'expected': {'raw': [[5, 7]] * 4, 'set_once': 8, 'get': 9, 'shared': True}})
     if 'err' in r['clone'] or not (r['clone']['ok']['canon_equal'] and r['clone']['ok']['disjoint']):
       chk.violation('oracle', 'nnx.clone is not an isomorphic copy sharing nothing mutable with the original', {'case': c, 'observed': r['clone']})
     if 'err' not in r['update'] and not r['update']['ok']['identity_kept']:
